@@ -141,6 +141,9 @@ def run_cache(cfg, res):
       for _ in range(k):
         nm += 1
         pts.append(('c%d' % (nm % 7), 999900 + nm))
+        if r.random() < 0.25:
+          # sub-second clients: more points of the same series within the same second
+          pts.append(('c%d' % (nm % 7), 999900 + nm + r.choice([0.25, 0.5, 0.75])))
       ops.append(('chunk', r.randrange(2), pts))
       if r.random() < 0.35:
         ops.append(('sleep', r.choice([0.01, 0.5, 1.1])))
